@@ -32,6 +32,7 @@ type refEntry struct {
 }
 
 type lruRunner struct {
+	keyPen
 	violBuf
 	tagBuf
 	c        types.Cacher
@@ -186,7 +187,7 @@ func (r *lruRunner) Exec(line string) string {
 	t := strings.Fields(line)
 	switch t[0] {
 	case "put", "hoa":
-		k, v := unhx(t[1]), unhx(t[2])
+		k, v := r.k(unhx(t[1])), unhx(t[2])
 		sz, _ := strconv.ParseInt(t[3], 10, 64)
 		where := "after " + t[0] + " " + hx(k)
 		rejected := r.sized && sz < 0
@@ -248,7 +249,7 @@ func (r *lruRunner) Exec(line string) string {
 		r.compareRef(where)
 		return b01(has) + " " + b01(added) + " | " + r.dump() + " | " + h
 	case "get":
-		k := unhx(t[1])
+		k := r.k(unhx(t[1]))
 		v, ok := r.c.Get(k)
 		i := r.refFind(string(k))
 		if ok != (i >= 0) {
@@ -263,7 +264,7 @@ func (r *lruRunner) Exec(line string) string {
 		}
 		return "some:" + hx(v.([]byte)) + " | " + r.dump()
 	case "peek":
-		k := unhx(t[1])
+		k := r.k(unhx(t[1]))
 		v, ok := r.c.Peek(k)
 		if ok != (r.refFind(string(k)) >= 0) {
 			r.add("C15", "peek", "peek "+hx(k))
@@ -274,7 +275,7 @@ func (r *lruRunner) Exec(line string) string {
 		}
 		return "some:" + hx(v.([]byte)) + " | " + r.dump()
 	case "has":
-		k := unhx(t[1])
+		k := r.k(unhx(t[1]))
 		ok := r.c.Has(k)
 		if ok != (r.refFind(string(k)) >= 0) {
 			r.add("C15", "has", "has "+hx(k))
@@ -282,7 +283,7 @@ func (r *lruRunner) Exec(line string) string {
 		r.compareRef("after has " + hx(k))
 		return b01(ok) + " | " + r.dump()
 	case "rm":
-		k := unhx(t[1])
+		k := r.k(unhx(t[1]))
 		r.c.Remove(k)
 		if i := r.refFind(string(k)); i >= 0 {
 			r.ref = append(append([]refEntry{}, r.ref[:i]...), r.ref[i+1:]...)
